@@ -55,6 +55,12 @@ theorem collection_never_py (d : Y) (c : PyCls) :
     strict .collection d ≠ .error (.py c) ∧ collect .collection d ≠ .error (.py c) := by
   exact ⟨map_ne_py _ (collFromDicts_noPy false _) c, fun h => absurd (collFromDicts_noPy true _ c h) (by simp)⟩
 
+/-- The same with reference resolution (`resolve_references=True`, the default): looking up the
+references of every correlation rule by identifier or name raises `SigmaRuleNotFoundError` only. -/
+theorem collection_refs_never_py (d : Y) (c : PyCls) :
+    strict .collectionRef d ≠ .error (.py c) ∧ collect .collectionRef d ≠ .error (.py c) := by
+  exact ⟨map_ne_py _ (collFromDictsRef_noPy false _) c, fun h => absurd (collFromDictsRef_noPy true _ c h) (by simp)⟩
+
 /-! ## collecting mode never raises -/
 
 /-- Loading a rule with error collection returns for every YAML value. -/
@@ -97,6 +103,16 @@ theorem collection_collect_never_raises_partial (d : Y) (h : ∀ doc ∈ collDoc
   have hp : ∀ doc ∈ collDocs d, corrPost doc = .ok () := fun doc hd => by simpa [postInitFails] using h doc hd
   obtain ⟨st', h1, h2, _⟩ := collLoop_collect (collDocs d) {} inv_init hp
   exact ⟨st'.errs, by simp [collect, load, collFromDicts, h1, collPostInit_ok st' h2]⟩
+
+/-- PARTIAL: with reference resolution, collecting mode returns as well (an unresolvable reference
+is collected) when the constructor of `SigmaCorrelationRule` accepts every document. -/
+theorem collection_refs_collect_never_raises_partial (d : Y) (h : ∀ doc ∈ collDocs d, ¬ postInitFails doc) :
+    ∃ errs, collect .collectionRef d = .ok errs := by
+  have hp : ∀ doc ∈ collDocs d, corrPost doc = .ok () := fun doc hd => by simpa [postInitFails] using h doc hd
+  obtain ⟨st', h1, h2, _⟩ := collLoop_collect (collDocs d) {} inv_init hp
+  obtain ⟨more, hm, _⟩ := collRef_collect_tail st'
+  simp only [pure_eq] at hm
+  exact ⟨st'.errs ++ more, by simp [collect, load, collFromDictsRef, h1, collPostInit_ok st' h2, hm]⟩
 
 /-- DEFECT D8i through a collection. -/
 theorem collection_collect_raises_D8i : collect .collection (.list [d8i]) = .error (.sigma .correlationRuleError) := by decide
@@ -188,6 +204,42 @@ theorem collection_strict_iff_collect_partial (d : Y) (h : ∀ doc ∈ collDocs 
       have : st''.errs = c :: rest := by simpa using h3
       simp [this]
 
+/-- PARTIAL: the same with reference resolution — strict loading raises `SigmaRuleNotFoundError`
+for an unresolvable reference exactly when collecting mode returns it as (then only) error. -/
+theorem collection_refs_strict_iff_collect_partial (d : Y) (h : ∀ doc ∈ collDocs d, ¬ postInitFails doc) :
+    (strict .collectionRef d = .ok () ↔ collect .collectionRef d = .ok []) ∧
+    ∀ e, strict .collectionRef d = .error e → ∃ c rest, e = .sigma c ∧ collect .collectionRef d = .ok (c :: rest) := by
+  have hp : ∀ doc ∈ collDocs d, corrPost doc = .ok () := fun doc hd => by simpa [postInitFails] using h doc hd
+  obtain ⟨hm1, hm2⟩ := collLoop_modes (collDocs d) {} inv_init hp
+  obtain ⟨hn1, hn2⟩ := collLoop_noPy false (collDocs d) {} inv_init
+  simp only [strict, collect, load, collFromDictsRef]
+  cases hl : collLoop false {} (collDocs d) with
+  | ok st' =>
+    obtain ⟨h1, h2⟩ := hm1 st' hl
+    have hi := hn2 st' hl
+    have he : st'.errs = [] := by simpa using h2
+    simp only [h1, ok_bind, collPostInit_ok st' hi, if_true, Bool.false_eq_true, if_false, he, List.nil_append]
+    have hr := collResolve_sig st'.objs
+    cases hres : collResolve st'.objs with
+    | ok u => simp [Except.map]
+    | error e =>
+      cases e with
+      | sigma c => simp [Except.map]
+      | py c => exact absurd (hr.1 c hres) (by simp)
+  | error e =>
+    cases e with
+    | py c => exact absurd (hn1 c hl) (by simp)
+    | sigma c =>
+      obtain ⟨st'', rest, h1, h2, h3⟩ := hm2 c hl
+      have : st''.errs = c :: rest := by simpa using h3
+      have hr := collResolve_sig st''.objs
+      cases hres : collResolve st''.objs with
+      | ok u => simp [h1, collPostInit_ok st'' h2, hres, this, Except.map]
+      | error e =>
+        cases e with
+        | sigma c2 => simp [h1, collPostInit_ok st'' h2, hres, this, Except.map]
+        | py c2 => exact absurd (hr.1 c2 hres) (by simp)
+
 /-! ## the model against a declarative specification -/
 
 /-- Strict loading of a rule succeeds exactly on the documents `Spec/Load.lean` calls well formed (a
@@ -269,5 +321,19 @@ example : collect .collection (.list [
     .map [(.str (S "action"), .str (S "bogus"))], .int 5]) = .ok [.collectionError, .collectionError] := by decide
 example : ∀ doc ∈ collDocs (.list [baseRule, baseCorr, baseFilter]), ¬ postInitFails doc := by decide
 example : strict .collection (.list [baseRule, baseCorr, baseFilter]) = .ok () := by decide
+
+/-- references by name and by identifier (any UUID spelling) resolve; a missing one is raised strictly
+and collected otherwise -/
+def namedRule : Y := .map [(.str (S "title"), .str (S "T")), (.str (S "name"), .str (S "r1")), (.str (S "id"), .str uuid1),
+  (.str (S "logsource"), .map [(.str (S "category"), .str (S "c"))]),
+  (.str (S "detection"), .map [(.str (S "s"), .map [(.str (S "f"), .int 1)]), (.str (S "condition"), .str (S "s"))])]
+def corrOver (refs : List Str) : Y := .map [(.str (S "title"), .str (S "C")),
+  (.str (S "correlation"), .map [(.str (S "type"), .str (S "event_count")), (.str (S "rules"), .list (refs.map .str)),
+    (.str (S "timespan"), .str (S "5m")), (.str (S "condition"), .map [(.str (S "gte"), .int 1)])])]
+
+example : strict .collectionRef (.list [namedRule, corrOver [S "r1", S "{929A690E-BEF0-4204-A928-EF5E620D6FCC}"]]) = .ok () := by decide
+example : strict .collectionRef (.list [namedRule, corrOver [S "r1", S "r2"]]) = .error (.sigma .ruleNotFoundError) := by decide
+example : collect .collectionRef (.list [namedRule, corrOver [S "r1", S "r2"]]) = .ok [.ruleNotFoundError] := by decide
+example : collect .collectionRef (.list [.int 5, corrOver [S "r1"]]) = .ok [.collectionError, .ruleNotFoundError] := by decide
 
 end SigmaVerif.Props.C07
